@@ -105,3 +105,32 @@
         assert(c1.0@ == c2.0@);
         assert(c1.0 =~= c2.0);
     }
+    // ---- C11 as a lemma over the contracts: the public key derived from a generated private key serialises to the generated public key's bytes
+    // (out0 / out1 are what PublicKey::into_bytes's postcondition says about the two keys)
+    pub proof fn lemma_derived_pk_same_bytes<const K: usize, const L: usize>(xi: Seq<u8>, eta: int, pk0: PublicKey<K, L>, sk: PrivateKey<K, L>, pk1: PublicKey<K, L>,
+            out0: Seq<u8>, out1: Seq<u8>)
+        requires eta_ok(eta), 1 <= K <= 8, keygen_spec(xi, eta, pk0, sk),
+            // get_public_key's postcondition for pk1
+            pk1.rho@ == sk.rho@,
+            forall|e: int, a1: Seq<Seq<int>>, a2: Seq<Seq<int>>, a0: Seq<Seq<int>>, a: [[T; L]; K]|
+                #![trigger sk_coefs_ok(sk, e, a1, a2, a0), expand_a_rel(sk.rho@, a)]
+                eta_ok(e) && sk_coefs_ok(sk, e, a1, a2, a0) && expand_a_rel(sk.rho@, a) ==> pk_coefs_ok(pk1, kg_t1(a, a1, a2)),
+            // into_bytes's postcondition for both keys
+            out0.len() == 32 + 320 * K, out1.len() == 32 + 320 * K, out0.subrange(0, 32) == pk0.rho@, out1.subrange(0, 32) == pk1.rho@,
+            forall|t1: Seq<Seq<int>>| #[trigger] pk_coefs_ok(pk0, t1) ==> forall|i: int, j: int| 0 <= i < K && 0 <= j < 256 ==> #[trigger] field(pk_t1_bytes(out0, i), 10, j) == t1[i][j],
+            forall|t1: Seq<Seq<int>>| #[trigger] pk_coefs_ok(pk1, t1) ==> forall|i: int, j: int| 0 <= i < K && 0 <= j < 256 ==> #[trigger] field(pk_t1_bytes(out1, i), 10, j) == t1[i][j],
+        ensures out0 == out1,
+    {
+        let (a, s1, s2, pkb) = choose|a: [[T; L]; K], s1: [R; L], s2: [R; K], pkb: Seq<u8>| #[trigger] kg_wit(xi, eta, pk0, sk, a, s1, s2, pkb);
+        assert(kg_wit(xi, eta, pk0, sk, a, s1, s2, pkb));
+        let t1 = kg_t1(a, vec_ints(s1), vec_ints(s2));
+        assert(pk_coefs_ok(pk0, t1));
+        assert(sk_coefs_ok(sk, eta, vec_ints(s1), vec_ints(s2), kg_t0(a, vec_ints(s1), vec_ints(s2))));
+        assert(expand_a_rel(sk.rho@, a));
+        assert(pk_coefs_ok(pk1, t1));
+        assert forall|i: int, j: int| 0 <= i < K && 0 <= j < 256 implies #[trigger] field(pk_t1_bytes(out0, i), 10, j) == field(pk_t1_bytes(out1, i), 10, j) by {
+            assert(field(pk_t1_bytes(out0, i), 10, j) == t1[i][j]);
+            assert(field(pk_t1_bytes(out1, i), 10, j) == t1[i][j]);
+        }
+        lemma_pk_bytes_unique(out0, out1, K as int);
+    }
